@@ -23,6 +23,7 @@ func main() {
 	repo := flag.String("repo", "/repo", "repository root to analyse")
 	tier := flag.String("tier", "quick", "quick|thorough")
 	verif := flag.String("verif", "", "verif dir (default: parent of binary dir)")
+	outDir := flag.String("out", "", "directory for evidence/ and reports/ (default: verif dir)")
 	flag.Usage = func() {
 		fmt.Fprintf(os.Stderr, "usage: checker [-repo dir] [-tier quick|thorough] <C01..C20|dump fn|list>\n")
 	}
@@ -35,6 +36,11 @@ func main() {
 		exe, _ := os.Executable()
 		*verif = filepath.Dir(filepath.Dir(exe))
 	}
+	verifDirGlobal = *verif
+	if *outDir == "" {
+		*outDir = *verif
+	}
+	outDirGlobal = *outDir
 	cmd := flag.Arg(0)
 	start := time.Now()
 	abs, _ := filepath.Abs(*repo)
